@@ -149,8 +149,15 @@ class Route:
                 md = [kv for kv in md if kv[1] != ""]
             pkg = r.choice(["pkg", "pkg", ""])
             m = r.choice(cls.METHODS)
+            decoy = []
+            if extractor:
+                # the context of a call with a custom extractor also carries metainfo values (which must be ignored);
+                # the extractor itself often returns nothing
+                if r.random() < 0.4:
+                    md = []
+                decoy = [[k, r.choice(["canary", "v1", "v12", "pre-canary"])] for k in cls.KEYS if r.random() < 0.8]
             calls.append({"service": "", "pkg": pkg, "svc": "svc", "method": m, "to_method": m if r.random() < 0.9 else "Other",
-                          "grpc": r.random() < 0.35, "md": md, "extractor": extractor})
+                          "grpc": r.random() < 0.35, "md": md, "extractor": extractor, "decoy": decoy})
         c = {"lds": C("RGood", lis), "named": named, "calls": calls, "repeat": 1}
         if r.random() < 0.03:
             c["lds"] = None
